@@ -15,14 +15,16 @@ N2 == [pat |-> Pat, refs |-> <<1>>, groups |-> << <<"a", "0", "b">>, <<"a">>, <<
 Pat21 == <<"K", "2", "K", "1">>
 D1 == [pat |-> Pat21, refs |-> <<2, 1>>, groups |-> << <<"a", "q">>, <<"a">>, <<"q">> >>]
 D2 == [pat |-> Pat21, refs |-> <<2, 1>>, groups |-> << <<"b", "q">>, <<"b">>, <<"q">> >>]
-UseName(u) == CASE u = A -> "A" [] u = B -> "B" [] u = N1 -> "N1" [] u = N2 -> "N2" [] u = D1 -> "D1" [] u = D2 -> "D2"
+\* E: the state is entered by a rule without groups, so `</\1>` cannot be expanded
+E == [pat |-> Pat, refs |-> <<1>>, groups |-> << <<"!">> >>]
+UseName(u) == CASE u = E -> "E" [] u = A -> "A" [] u = B -> "B" [] u = N1 -> "N1" [] u = N2 -> "N2" [] u = D1 -> "D1" [] u = D2 -> "D2"
 \* one lexing call over "<a>t</a>" uses the end rule twice: first on "t</a>" (no match), then on "</a>"
-Call(u) == <<u, u>>
-PlainUses == {A, B, D1, D2}
+Call(u) == IF u = E THEN <<u>> ELSE <<u, u>>
+PlainUses == {A, B, D1, D2, E}
 NulUses == {N1, N2}
 MCProcs == 1..NProcs
 MCScenarios == {[p \in MCProcs |-> Call(f[p])] : f \in [MCProcs -> (IF WithNul THEN NulUses ELSE PlainUses)]}
-MCHistories == IF WithNul THEN {{}, {N1}, {N2}} ELSE {{}, {A}, {B}, {D1}, {D2}}
+MCHistories == IF WithNul THEN {{}, {N1}, {N2}} ELSE {{}, {A}, {B}, {D1}, {D2}, {E}}
 
 RECURSIVE SchedStr(_, _), CallsStr(_), HistStr(_)
 SchedStr(s, i) == IF i > Len(s) THEN "" ELSE (IF i > 1 THEN " " ELSE "") \o ToString(s[i][1]) \o ":" \o s[i][2] \o (IF s[i][3] = "" THEN "" ELSE ":" \o s[i][3]) \o SchedStr(s, i + 1)
